@@ -8,7 +8,7 @@ PROPERTY = 'C15'
 FUNCTIONS = ['evaluation.compute_global_cost', 'evaluation.compute_cost', 'evaluation.compute_partial_cost', 'evaluation.compute_global_rmse',
              'evaluation.mip', 'linear_fit.linear_fit_transform_points', 'linear_fit.linear_fit', 'linear_fit.linear_transform']
 BOUNDS = dict(quick='n <= 5 points (concrete x patterns; x symbolic for n <= 4), y >= 0 symbolic, every breakpoint subset with both ends, 5 metrics; '
-                    'cache: every ordered pair of breakpoint sets (n <= 5) sharing one dict; MIP: n <= 5',
+                    'cache: every ordered pair of breakpoint sets (n <= 5) sharing one dict; call histories without a cache argument over two curves and two metrics (n <= 5); MIP: n <= 5',
               thorough='n <= 6 (x symbolic for n <= 4); cache: every ordered pair (n <= 6) and every ordered triple (n <= 5); MIP: n <= 6')
 ASSUMPTIONS = ['exact real arithmetic (T1)', 'y >= 0 (performance curve), x strictly increasing', 'log uninterpreted (shared by code and spec)',
                'cache transparency is proved as equality of the returned real values for all inputs; bit-identity then follows because a cache hit returns a value '
@@ -49,6 +49,12 @@ def cases(tier, seed):
                         out.append(dict(fn='cache', n=n, xs=xs, metric=m, first=a, last=b, depth=2, nra_at_decide=False))
                 else:
                     out.append(dict(fn='cache', n=n, xs=xs, metric=m, first=a, depth=2, nra_at_decide=False))
+    for n in ((4, 5) if q else (4, 5, 6)):
+        xs = x_patterns(n, tier, seed, start=1)[-1]
+        for m in METRICS:
+            for red in bp_sets(n):
+                if len(red) < n:
+                    out.append(dict(fn='calls', n=n, xs=xs, metric=m, reduced=red))
     if not q:
         n = 5
         xs = x_patterns(n, tier, seed, start=1)[-1]
@@ -56,6 +62,8 @@ def cases(tier, seed):
             for a in bp_sets(n):
                 for b in bp_sets(n):
                     out.append(dict(fn='cache', n=n, xs=xs, metric=m, first=a, second=b, depth=3, nra_at_decide=False))
+    # call histories first: they are cheap and the ones that see state kept between calls
+    out.sort(key=lambda c: 0 if c['fn'] == 'calls' else 1)
     return out
 
 
@@ -162,6 +170,23 @@ def run(h, case):
         med = srt[k // 2] if k % 2 else (srt[k // 2 - 1] + srt[k // 2]) / 2
         h.prove(h.eq(m, med), 'MIP == median RMSE increase over interior breakpoints')
         h.prove(not h.writes(), 'arguments unmodified')
+        return None
+    if fn == 'calls':
+        # a history of calls that never pass a cache: another curve, then another metric, in between - the value must only depend on the arguments
+        metric, red = getattr(M, case['metric']), case['reduced']
+        other = getattr(M, 'smape' if case['metric'] != 'smape' else 'rpd')
+        Y2 = [y + h.real('d%d' % i, nn=True) for i, y in enumerate(Y)]
+        pts2 = h.array([[a, b] for a, b in zip(X, Y2)])
+        same = (lambda a, b: a == b) if h.sym else (lambda a, b: float(a) == float(b))
+        ev.compute_global_cost(pts, list(red), metric)
+        v_b = ev.compute_global_cost(pts2, list(red), metric)
+        v_m = ev.compute_global_cost(pts2, list(red), other)
+        v_a = ev.compute_global_cost(pts, list(red), metric)
+        h.prove(band(same(v_b, ev.compute_global_cost(pts2, list(red), metric, {})), same(v_m, ev.compute_global_cost(pts2, list(red), other, {})),
+                     same(v_a, ev.compute_global_cost(pts, list(red), metric, {}))), 'calls without a cache argument do not depend on earlier calls (other curve, other metric)')
+        r1 = ev.compute_global_rmse(pts, h.iarray(red))
+        ev.compute_global_rmse(pts2, h.iarray(red))
+        h.prove(same(ev.compute_global_rmse(pts, h.iarray(red)), r1), 'compute_global_rmse does not depend on earlier calls')
         return None
     if fn == 'cache':
         metric = getattr(M, case['metric'])
